@@ -46,3 +46,43 @@ def hook_discipline(cx, rule):
     allowed = {"Task::add_hook_catch", "Task::add_hook_timeout", "Task::add_hook_stmts", "Task::set_hooks"}
     cx.ob(rule, "hooks:writers", writers <= allowed and len(writers) >= 3, "the hook table of a task is written only by the three adders and the loader's set_hooks (found %s)" % sorted(writers), None)
     return n
+
+
+def children_in_selector(cx, rule, what):
+    """Node::children_in(kind, on) returns exactly the outputs whose kind AND `on` both equal the arguments (an output
+    registered for another handler is never returned) - the selection every catch / timeout handler relies on"""
+    import re
+    from vlib.model import Prov, Anchor
+    from vlib.boolfn import paths, is_conjunction_of
+    m = cx.m
+    pa = Prov(m, "alias")
+    f = m.one(r"^acts::scheduler::tree::node::Node::children_in$")
+    flt = [c for c in f.calls() if re.search(r"Iterator(>)?::filter(::<.*>)?$", c.q)]
+    others = [c for c in f.calls() if re.search(r"Iterator(>)?::(skip|take|step_by|skip_while|take_while|filter_map|find|nth|rev|chain|zip)(::<.*>)?$", c.q)]
+    if len(flt) != 1:
+        raise Anchor("children_in: expected one filter")
+    cl = pa.root(f, flt[0].args[1])
+    if cl[0] != "closure" or cl[1] not in m.fns:
+        raise Anchor("children_in: filter argument is not a local closure")
+    g = m.fns[cl[1]]
+    atoms = {}
+    for c in g.calls():
+        if re.search(r"PartialEq(<.*>)?>::eq$", c.q) and len(c.args) == 2:
+            roots = [pa.root(g, a) for a in c.args]
+            names = set()
+            for r in roots:
+                if r[0] == "upvar":
+                    names.add("arg:" + r[1])
+                elif r[0] == "param" and r[3]:
+                    names.add("field:" + [x for x in r[3] if x != "*"][-1])
+            if names == {"arg:typ", "field:typ"}:
+                atoms["typ"] = c.b
+            if names == {"arg:on", "field:on"}:
+                atoms["on"] = c.b
+    ok = False
+    why = "the tests `n.typ == typ` and `n.on == on` were not both found"
+    if set(atoms) == {"typ", "on"}:
+        ok, why = is_conjunction_of(paths(m, g), atoms.values())
+    cx.ob(rule, "%s:selector" % what, ok and not others,
+          "Node::children_in returns an output exactly when its kind equals the kind asked for AND its `on` equals the `on` asked for%s" % (
+              "" if (ok and not others) else " - but the filter %s%s" % (why, (", extra adaptors %s" % [c.q.split("::")[-1] for c in others]) if others else "")), g.loc())
